@@ -133,11 +133,25 @@ class Audit:
                     self.note((fn, tail, describe(a)), ok, "value known to be Some/Ok" if ok else "may be None/Err", e.fn, e.line)
                 elif n.startswith("core::panicking::") or n.startswith("core::option::expect_failed") or \
                         n.startswith("core::result::unwrap_failed"):
-                    self.note((fn, "panic", tail), False, "explicit panic reachable", e.fn, e.line)
+                    # an assertion written as `if !cond { panic }`: discharged when intervals show that the decisions
+                    # leading here cannot all hold
+                    why = self.path_infeasible(rg, conds)
+                    self.note((fn, "panic", tail), why is not None, why or "explicit panic reachable", e.fn, e.line)
                 elif n == "cozy_chess_types::square::Square::offset":
                     self.note((fn, "offset", "Square::offset"), False, "panicking offset", e.fn, e.line)
                 elif "slice::index" in n or n.endswith("Index>::index") or n.endswith("IndexMut>::index_mut"):
                     self.note((fn, "slice-index", tail), False, "slice indexing", e.fn, e.line)
+
+    def path_infeasible(self, rg, conds):
+        for i, c in enumerate(conds):
+            x, v = c[0], c[1]
+            if not isinstance(v, int) or x[0] != "bin" or x[1] not in ("Lt", "Le", "Gt", "Ge", "Ne"):
+                continue
+            # the path claims x == v; show x == 1 - v from what was decided before
+            ok, how = self.assert_holds(rg, x, sym.TRUE if v == 0 else sym.FALSE, conds[:i])
+            if ok:
+                return "unreachable: %s contradicts %s" % (how, sym.show(x)[:60])
+        return None
 
     def assert_holds(self, rg, cond, expected, conds):
         exp = 1 if expected == sym.TRUE else 0
@@ -147,6 +161,9 @@ class Audit:
             if exp == 0 and rg.no_overflow(cond, conds):
                 return True, "interval: no overflow"
             return False, ""
+        if cond[0] == "bin" and cond[1] in ("Lt", "Le", "Gt", "Ge") and exp == 0:
+            neg = {"Lt": "Ge", "Le": "Gt", "Gt": "Le", "Ge": "Lt"}[cond[1]]
+            return self.assert_holds(rg, ("bin", neg, cond[2], cond[3]), sym.TRUE, conds)
         if cond[0] == "bin" and cond[1] in ("Lt", "Le", "Gt", "Ge") and exp == 1:
             a = rg.bounds(cond[2], conds)
             b = rg.bounds(cond[3], conds)
